@@ -44,6 +44,8 @@ TRUSTED = [
      'so it is bounded by the guarded final production count'),
     ('lrtable::statetable::StateTable::decode', 'arithmetic Shr',
      'payload of an action cell, which encode() produced from a StIdx/PIdx value of the same width'),
+    ('lrtable::statetable::StateTable::decode', 'arithmetic Div',
+     'the same payload extracted by a division instead of a shift (R16.4 decides that it undoes encode)'),
 ]
 
 
